@@ -30,6 +30,11 @@ func forkAndExecInChild(r *Runner, argv0 *byte, argv, env []*byte, workdir, host
 
 	// similar to exec_linux, avoid side effect by shuffling around
 	fd, nextfd := prepareFds(r.Files)
+	// the scratch area must also lie above the exec descriptor, otherwise moving the
+	// sync pipe to nextfd could overwrite it
+	if execFile > 0 && nextfd <= int(execFile) {
+		nextfd = int(execFile) + 1
+	}
 
 	flag := r.CloneFlags & UnshareFlags
 	if r.SyncFunc == nil && !(r.StopBeforeSeccomp || (r.Seccomp != nil && r.Ptrace)) && flag&syscall.CLONE_NEWUSER != syscall.CLONE_NEWUSER {
